@@ -98,6 +98,7 @@ class Ctx:
         self.callbacks = callbacks or {}
         self.vars = {}
         self.responses = []  # (site, mid, response object)
+        self.cmd_results = {}  # mid -> last object returned by the engine's command coroutine
         self.msgs = {}  # mid -> Msg (keeps them alive; identity)
         self._mid = 0
         self.msg_ids = {}  # id(msg) -> mid
